@@ -1412,3 +1412,46 @@ def kms_sign_table_expected():
             else:
                 want[(kind, size, alg)] = "raise"
     return want
+
+
+def value_slot_naming(ctx):
+    """The generic node keeps its content in an attribute named after its own class (SuitObject.__init__) and finds it again by
+    looking for an attribute whose name contains one of a few fixed substrings (SuitObject.value): a node class whose name contains
+    none of them can be built but neither encoded nor shown.  The substrings and the convention are read from the two methods; when
+    the content is kept another way the rule does not apply."""
+    R, repo = ctx.report, ctx.repo
+    rid = f"{ctx.prop}-G4 value slot naming"
+    so = repo.mod(COMMON).classes.get("SuitObject")
+    if so is None:
+        return
+    init, getter = so.methods.get("__init__"), so.methods.get("value")
+    if init is None or getter is None:
+        return
+    by_class_name = any(isinstance(n, ast.Call) and isinstance(n.func, ast.Name) and n.func.id == "setattr" and len(n.args) == 3
+                        and "__class__.__name__" in ast.unparse(n.args[1]) for n in ast.walk(init.node))
+    needles = set()
+    for f in (getter, so.methods.get("value.setter")):
+        if f is None:
+            continue
+        for n in ast.walk(f.node):
+            if isinstance(n, ast.Compare) and len(n.ops) == 1 and isinstance(n.ops[0], ast.In) and isinstance(n.left, ast.Constant) \
+                    and isinstance(n.left.value, str) and isinstance(n.comparators[0], ast.Name):
+                needles.add(n.left.value)
+    if not by_class_name or not needles:
+        R.info("the generic node does not find its content by class name: the naming rule (G4) does not apply")
+        return
+    R.rule(rid, 60, f"every node class is named so that SuitObject.value finds its content (contains one of {sorted(needles)})")
+    for m in repo.modules.values():
+        for c in m.classes.values():
+            if c.outer is not None or c is so:
+                continue
+            try:
+                is_node = so in repo.mro(c)
+            except AnalysisError:
+                is_node = False
+            if not is_node:
+                continue
+            R.check(rid, any(s_ in c.name for s_ in needles), c.fq, mod=m, node=c.node, function=c.fq,
+                    expected=f"a class name containing one of {sorted(needles)}",
+                    found=f"{c.name}: an object of this class stores its content as attribute {c.name!r}, which value / to_cbor / to_obj never find",
+                    key_extra=c.name)
